@@ -78,11 +78,34 @@ def ev_pop(src, before, after, r, exc):
             "after": list(after) if not exc else [], "r": r if not exc else 0, "exc": exc}
 
 
+class Box:
+    """equal-but-distinct list elements: equality by value, identity by uid"""
+    def __init__(self, v, uid):
+        self.v, self.uid = v, uid
+
+    def __eq__(self, other):
+        return isinstance(other, Box) and other.v == self.v
+
+    def __hash__(self):
+        return hash(self.v)
+
+
+def pop_identity(s, lst):
+    """pop_random on a list of Box objects; reported by IDENTITY (uids), so that removing an equal but different element
+    from the one returned is visible"""
+    boxes = [Box(v, i + 1) for i, v in enumerate(lst)]
+    work = list(boxes)
+    r = s.pop_random(work)
+    return (r.uid if isinstance(r, Box) else 0, [b.uid if isinstance(b, Box) else 0 for b in work], [b.uid for b in boxes])
+
+
 def ev_bool(src, r, exc):
     return {"e": "prim", "src": src, "name": "random_bool", "ty": tyname(r) if not exc else "none", "exc": exc}
 
 
-LISTS = [[7], [7, 8], [7, 8, 9], [7, 7, 8], [1, 2, 3, 4]]
+LISTS = [[7], [7, 8], [7, 8, 9], [7, 7, 8], [1, 2, 3, 4], [5, 5, 5]]
+# weights below the 1e-5 resolution of choice_weighted, in units of 1e-7
+SUB_WS = [[0, 10], [10, 0], [0, 40, 0], [0, 50, 50], [0, 0, 99], [1, 0]]
 TINY_WS = [[0, 3, 1], [3, 0, 1], [3, 1, 0], [0, 0, 2], [2, 0, 0], [1, 1], [5], [0, 1], [1, 0], [2, 3, 5],
            [0, 0, 0, 4], [1, 0, 1, 0], [0, 2, 0, 2]]
 INT_BOUNDS = [(0, 0), (5, 5), (-3, -3), (0, 1), (-1, 1), (-7, -2), (0, 9), (0, 255), (0, 1000), (0, 1001),
@@ -121,6 +144,15 @@ def derived_over(src_name, mk_source_explore, batch, stats, tid_prefix):
             evs.append(ev_weighted(src_name, ws, res, exc))
         batch.trace(f"{tid_prefix}/weightedP/{ws}", evs)
         stats["events"] += len(evs)
+    # weights below the resolution of the scaled integers: a zero-weight option is still never chosen
+    for ws in SUB_WS:
+        evs = []
+        opts = list(range(1, len(ws) + 1))
+        for _, s, res in mk_source_explore(lambda s: s.choice_weighted(opts, [w * 1e-7 for w in ws])):
+            exc = exc_name(res) if isinstance(res, Exception) else ""
+            evs.append(ev_weighted(src_name, ws, res, exc))
+        batch.trace(f"{tid_prefix}/weightedS/{ws}", evs)
+        stats["events"] += len(evs)
     # shuffle, pop_random
     for lst in LISTS + [[]]:
         evs = []
@@ -140,6 +172,9 @@ def derived_over(src_name, mk_source_explore, batch, stats, tid_prefix):
         for _, s, res in mk_source_explore(f):
             exc = exc_name(res) if isinstance(res, Exception) else ""
             evs.append(ev_pop(src_name, lst, res[1] if not exc else [], res[0] if not exc else 0, exc))
+        for _, s, res in mk_source_explore(lambda s: pop_identity(s, lst)):
+            exc = exc_name(res) if isinstance(res, Exception) else ""
+            evs.append(ev_pop(src_name, res[2] if not exc else [], res[1] if not exc else [], res[0] if not exc else 0, exc))
         batch.trace(f"{tid_prefix}/pop/{lst}", evs)
         stats["events"] += len(evs)
     evs = []
